@@ -45,7 +45,7 @@ for a in I64_EXACT_ARMS:
 for a in I64_AGG_ARMS:
     rule('i64-ast', 'eval', a, PANIC_KINDS, ['C11'])                        # "an argument that fails ... returns Err"
 # termination
-rule('i64-ast', '*', '*', ['decreases'], ['C02'])
+rule('i64-ast', '*', '*', ['decreases'], ['C02', 'C01'])
 # compositionality: a node's value is a function of its children's values = the contract of eval itself
 rule('i64-ast', 'eval', '*', ['post'], ['C20'])
 
@@ -103,14 +103,17 @@ rule(P, 'convert_token_to_node', 'RadToDeg', VAL, ['C10', 'C04', 'C12'])
 rule(P, 'convert_token_to_node', 'default', VAL, ['C03'])
 rule(P, 'convert_token_to_node', '-', VAL, ['C03'])
 rule(P, '*', '*', ['overflow', 'divzero', 'shift', 'index'], ['C01'])
-rule(P, '*', '*', ['decreases'], ['C02'])
+rule(P, '*', '*', ['decreases'], ['C02', 'C01'])
+# progress clause (a successful call of a parser method consumes a token): what makes every loop and recursion of the parser
+# terminate - a call that never returns neither yields Ok nor Err (C01) and is not bounded by the input length (C02)
+rule(P, '*', '*', ['progress'], ['C01', 'C02'])
 
 
 # ---- eval_complex::ast (unit complex-ast): mapping against the num_complex header
 rule('complex-ast', 'eval', '*', ['post', 'assert', 'precond'], ['C08', 'C10', 'C20'])
 rule('complex-ast', 'eval', 'Number', ['post'], ['C14'])
 rule('complex-ast', '*', '*', PANIC_KINDS, ['C01'])
-rule('complex-ast', '*', '*', ['decreases'], ['C02'])
+rule('complex-ast', '*', '*', ['decreases'], ['C02', 'C01'])
 
 
 # ---- eval_decimal::ast (unit decimal-ast): mapping + error contract against the rust_decimal header
@@ -127,13 +130,13 @@ for a in DEC_ARITH:
     rule('decimal-ast', 'eval', a, PANIC_KINDS, ['C07'])        # "by zero / out of range yields Err" - not a panic
 for a in ('Min', 'Max', 'Avg', 'Med'):
     rule('decimal-ast', 'eval', a, PANIC_KINDS, ['C11'])        # an argument that fails makes the aggregate return Err
-rule('decimal-ast', '*', '*', ['decreases'], ['C02'])
+rule('decimal-ast', '*', '*', ['decreases'], ['C02', 'C01'])
 
 
 # ---- tokenizers (units <stack>-tok): no panic, progress (>= 1 character per token), Eof exactly at the end of input
 T = '*-tok'
 rule(T, '*', '*', PANIC_KINDS, ['C01'])
-rule(T, '*', '*', ['decreases'], ['C02'])
+rule(T, '*', '*', ['decreases'], ['C02', 'C01'])
 rule(T, 'next', '*', ['post', 'invariant'], ['C02', 'C03'])
 rule(T, 'deserialize_superscript_number', '*', ['post', 'invariant'], ['C02'])
 rule(T, 'new', '*', ['post'], ['C03'])
@@ -153,7 +156,7 @@ rule('number-glue', 'eval_*', '*', ['post', 'precond', 'assert'], ['C09'])
 rule('decimal-glue', 'eval_*', '*', ['post', 'precond', 'assert'], ['C07'])
 rule('complex-glue', 'eval_*', '*', ['post', 'precond', 'assert'], ['C08'])
 rule(G, '*', '*', ['overflow', 'divzero', 'shift', 'index'], ['C01'])
-rule(G, '*', '*', ['decreases'], ['C02'])
+rule(G, '*', '*', ['decreases'], ['C02', 'C01'])
 
 
 # ---- eval_f64::ast (unit f64-ast): every node applies the named IEEE / libm primitive (f64_header.vinc) to its children's values
@@ -172,7 +175,7 @@ for a in F64_AGG:
 rule('f64-ast', 'eval', 'Number', ['post'], ['C05', 'C14'])
 rule('f64-ast', 'eval', '*', ['post', 'assert'], ['C20'])
 rule('f64-ast', '*', '*', PANIC_KINDS, ['C01'])
-rule('f64-ast', '*', '*', ['decreases'], ['C02'])
+rule('f64-ast', '*', '*', ['decreases'], ['C02', 'C01'])
 for a in ('Factorial', 'LambertW', 'ILog'):
     rule('f64-ast', 'eval', a, ['invariant', 'overflow'], ['C02'])      # the iteration caps
 
@@ -194,7 +197,7 @@ rule('number-ast', 'eval', 'Num', ['post'], ['C09', 'C14'])
 rule('number-ast', 'eval', '*', ['post', 'assert'], ['C20'])
 rule('number-ast', 'from*', '*', ['post', 'assert'], ['C18', 'C09', 'C10', 'C15'])
 rule('number-ast', '*', '*', PANIC_KINDS, ['C01'])
-rule('number-ast', '*', '*', ['decreases'], ['C02'])
+rule('number-ast', '*', '*', ['decreases'], ['C02', 'C01'])
 for a in ('Factorial', 'LambertW', 'ILog'):
     rule('number-ast', 'eval', a, ['invariant', 'overflow'], ['C02'])
 
